@@ -161,6 +161,22 @@ def build_ions(md, seed=0, variant="ions_tri"):
     return md.Trajectory(xyz.astype(np.float32), top, unitcell_lengths=np.tile(L, (3, 1)), unitcell_angles=np.tile(A, (3, 1)))
 
 
+def build_interleaved(md, seed=0):
+    """Three residues whose atoms alternate in atom-index order (legal through Topology.add_atom(name, element,
+    residue) for an earlier residue): iteration over Topology.atoms goes residue by residue and therefore NOT in
+    index order, while coordinates are in index order."""
+    top = md.Topology()
+    ch = top.add_chain()
+    res = [top.add_residue(n, ch) for n in ("AAA", "BBB", "CCC")]
+    plan = [(0, "C1", "C"), (1, "S1", "S"), (0, "H1", "H"), (2, "O1", "O"), (1, "N1", "N"), (0, "O2", "O"),
+            (2, "H2", "H"), (1, "C2", "C"), (2, "S2", "S")]
+    for ri, name, el in plan:
+        top.add_atom(name, md.element.Element.getBySymbol(el), res[ri])
+    x0 = np.array([[0.35 * i, 0.2 * ((i * 7) % 5), 0.15 * ((i * 3) % 4)] for i in range(len(plan))])
+    xyz = np.array([x0, x0 * 1.1 + grids.jitter(len(plan), 3, 0.05, seed + 1), x0[::-1] * 0.9])
+    return md.Trajectory(xyz.astype(np.float32), top)
+
+
 def load_fragment(md, repo, name, seed=0):
     """Fragments of files of the tree under test."""
     d = os.path.join(repo, "tests", "data")
@@ -221,6 +237,8 @@ def get(md, repo, name, seed=0):
         return build_peptide(md, seed, name)
     if name.startswith("ions"):
         return build_ions(md, seed, name)
+    if name == "ilv":
+        return build_interleaved(md, seed)
     return load_fragment(md, repo, name, seed)
 
 
@@ -230,6 +248,7 @@ def table(traj):
     for a in traj.topology.atoms:
         atoms.append(dict(i=a.index, name=a.name, el=a.element.symbol, res=a.residue.index, rn=a.residue.name,
                           chain=a.residue.chain.index, mass=float(a.element.mass), prot=bool(a.residue.is_protein)))
+    atoms.sort(key=lambda a: a["i"])          # records in atom-index order (= coordinate order) whatever the iteration order
     residues = []
     for r in traj.topology.residues:
         residues.append(dict(i=r.index, name=r.name, chain=r.chain.index, atoms=[a.index for a in r.atoms],
